@@ -20,3 +20,10 @@ Definition box_valid (x : list float) : bool :=
   match x with a :: b :: _ => negb ((0.4 <? a) && (a <? 0.45) && (b <? 0.5)) | _ => true end.
 Definition geo_run (tol delta lambda : float) (ipol : bool) (from to : list float) : bool * list (list float) :=
   discrete_geodesic FlG (list float) vdist vinterp (plane_project tol) box_valid delta lambda 100000 ipol from to.
+(* ConstrainedStateSpace::interpolate(from, to, t): the geodesic (interpolate = true) vertex closest to fraction t, or
+   `from' when the traversal fails; [] stands for an access outside the geodesic *)
+Definition interp_run (tol delta lambda : float) (from to : list float) (t : float) : list float :=
+  match constrained_interpolate FlG (list float) vdist PrimFloat.sub PrimFloat.abs 1 (geo_run tol delta lambda true from to) from t with
+  | Some s => s
+  | None => []
+  end.
